@@ -42,6 +42,9 @@ class C10(ProgProp):
                 ls.append(f'client {mc["port"]} {c}')
             ls.append('bind' + (f' skip={skip}' if skip else ''))
             ls.append(f'final {parent}')
+            if skip or 'skipcomp' in world:
+                # "detects EVERY unbound event": a second attempt on the still unbound shell must fail again
+                ls.append(f'final {parent}')
             return ls
         out.append(('all-bound', base()))
         out.append(('all-bound-noparent', base(parent=0)))
@@ -76,12 +79,14 @@ class C10(ProgProp):
     def monitor(self, case, spec, script, segs):
         failed = []
         cur = None
+        nfinal = 0
         labels = iter([l for l, _ls in self._sc])
         label = None
         tail = False
         for op, pre, term, post in segs:
             t = op.split(' ')
             if t[0] == 'world':
+                nfinal = 0
                 label = next(labels, None)
                 if label is None:
                     tail = True
@@ -94,7 +99,13 @@ class C10(ProgProp):
                     want = 'final ok parent=' + t[1]
                     if term != want:
                         failed.append(f'[{label}] {term} (want {want})')
+                elif nfinal >= 1:
+                    # the retry on the still unbound shell: it must not report success (on the unchanged code a
+                    # multi-client selector that was already locked answers "Already final constructed")
+                    if not (term or '').startswith('final exc '):
+                        failed.append(f'[{label}] still unbound, but a second FinalConstruct() returned: {term}')
                 else:
+                    nfinal += 1
                     if not (term or '').startswith('final exc binding_error'):
                         failed.append(f'[{label}] left unbound but: {term}')
                     else:
